@@ -290,7 +290,14 @@ def check_return_path(ctx, ex, f, fname, key, k, p, info):
     ctx.check(ok_shape, "C18.b DRAW-SHAPE", pk, d.loc(), found, expected="reshape(n, p) before the first use (scipy returns shape (p,) for n = 1 and (n,) for p = 1)", nontrivial=False)
     # ---- arguments are not mutated: a second call with the same list objects gets the same arguments
     muts = [e for e in p.events if e.kind in ("list_extend", "list_append", "list_mutate", "list_store", "list_pop") and getattr(e.data.get("lst"), "role", None) in ("changepoints", "means", "variances", "anomalies", "anomaly")]
-    ctx.check(not muts, "C18.a SEED-FLOW", f"{pk}:arguments-untouched", muts[0].loc() if muts else f.loc(), "the generator does not modify the lists it is given (identical arguments stay identical for the next call)", found=[f"{e.kind} on {e.data['lst'].role}" for e in muts][:3] or "no mutation of an argument list", expected="no in-place extend / append / store on an argument", nontrivial=False)
+    # numpy's out= writes into an existing array: an element of the caller's means / variances (or a shared array that
+    # stands for several segments) is updated in place
+    for e in p.events:
+        if e.kind == "out_write" and isinstance(e.data.get("target"), Num) and e.data["target"].nf is not None:
+            names = {a.args[0] for a in atoms_of(e.data["target"].nf, deep=True).values() if a.kind == "sym"}
+            if names & {"means_el", "vars_el", "mean0", "var0"}:
+                muts.append(e)
+    ctx.check(not muts, "C18.a SEED-FLOW", f"{pk}:arguments-untouched", muts[0].loc() if muts else f.loc(), "the generator does not modify the lists it is given (identical arguments stay identical for the next call)", found=[(f"{e.kind} on {e.data['lst'].role}" if e.kind != "out_write" else f"{e.data['callee']}(..., out=<a per-segment parameter>)") for e in muts][:3] or "no mutation of an argument list", expected="no in-place extend / append / store on an argument", nontrivial=False)
     # ---- (c) AFFINE-PLACEMENT
     check_placement(ctx, ex, f, fname, pk, p, info, stores)
     # ---- (d) GUARDS
